@@ -729,8 +729,17 @@ def bytes_read_unsigned(prog, chk, rid):
         if f.body is None or f.is_pattern or not prog.in_repo(f.file) or '/engine/' not in (f.file or ''):
             continue
         n += 1
+        # the usual arithmetic conversions inside a comparison (`s[0] == ';'`, `*p < 'a'`) are not reads of a quantity
+        in_compare = set()
+        for x in walk(f.body):
+            if x.get('kind') == 'BinaryOperator' and x.get('opcode') in ('==', '!=', '<', '>', '<=', '>='):
+                cs = children(x)
+                if any(strip(c, explicit=True).get('kind') == 'CharacterLiteral' for c in cs):
+                    in_compare.update(id(c) for c in cs)
         for x in walk(f.body):
             if x.get('kind') != 'ImplicitCastExpr' or x.get('castKind') != 'IntegralCast' or not children(x):
+                continue
+            if id(x) in in_compare:
                 continue
             dst = (x.get('type') or '').replace('const ', '').strip()
             src_node = children(x)[0]
